@@ -32,7 +32,7 @@ Proof.
 Qed.
 
 Lemma b0_nonneg : nonneg (bal b0).
-Proof. intro a. do 9 (destruct a as [|a]; [vm_compute; congruence|]). vm_compute. congruence. Qed.
+Proof. intro a. do 10 (destruct a as [|a]; [vm_compute; congruence|]). vm_compute. congruence. Qed.
 
 Example txs_wf : Forall (tx_wf e0) [t_odd; t_low; t_fwd; t_sds; t_rev].
 Proof. repeat constructor; simpl; lia. Qed.
@@ -40,11 +40,11 @@ Proof. repeat constructor; simpl; lia. Qed.
 Definition show (r : bank * outcome) : outcome * list Z * Z := (snd r, map (bal (fst r)) universe, supply (fst r)).
 
 Example deliver_nonvacuous :
-  show (deliver e0 b0 t_odd) = (Ok,     [999999968499; 31507; 1; 50; 0; 0; 100; 0; 0], 5000000000000) /\
-  show (deliver e0 b0 t_low) = (MsgErr, [999999980000; 20007; 0; 50; 0; 0; 100; 0; 0], 5000000000000) /\
-  show (deliver e0 b0 t_fwd) = (Ok,     [999999968901; 31104; 0; 51; 0; 0; 100; 0; 0], 4999999999999) /\
-  show (deliver e0 b0 t_sds) = (Ok,     [999999965218; 34788; 0; 0; 0; 0; 100; 0; 0],  4999999999949) /\
-  show (deliver e0 b0 t_rev) = (VmErr,  [999999935397; 64610; 0; 50; 0; 0; 100; 0; 0], 5000000000000).
+  show (deliver e0 b0 t_odd) = (Ok,     [999999968499; 31507; 1; 50; 0; 0; 100; 0; 0; 0], 5000000000000) /\
+  show (deliver e0 b0 t_low) = (MsgErr, [999999980000; 20007; 0; 50; 0; 0; 100; 0; 0; 0], 5000000000000) /\
+  show (deliver e0 b0 t_fwd) = (Ok,     [999999968901; 31104; 0; 51; 0; 0; 100; 0; 0; 0], 4999999999999) /\
+  show (deliver e0 b0 t_sds) = (Ok,     [999999965218; 34788; 0; 0; 0; 0; 100; 0; 0; 0],  4999999999949) /\
+  show (deliver e0 b0 t_rev) = (VmErr,  [999999935397; 64610; 0; 50; 0; 0; 100; 0; 0; 0], 5000000000000).
 Proof. vm_compute. repeat split; reflexivity. Qed.
 
 Example history_nonvacuous :
@@ -78,4 +78,25 @@ Proof. vm_compute. reflexivity. Qed.
 
 Example checker_accepts_model :
   forallb (fun t => Pb (mk e0 b0 t (snd (deliver e0 b0 t)) (fst (deliver e0 b0 t)))) [t_odd; t_low; t_fwd; t_sds; t_rev] = true.
+Proof. vm_compute. reflexivity. Qed.
+
+(** one tx in which a driver contract (9) makes X (3) self-destruct to B (4), pays it 3 unibi, makes it
+    self-destruct to B again and then to R (2): the 3 unibi arrive exactly once, supply unchanged; with a
+    payment after the last self-destruct the remainder is deleted with the account (supply goes down) *)
+Definition b1 : bank := bank_of [1000000000000; 7; 0; 50; 0; 0; 100; 0; 0; 1000] 5000000000000.
+Definition t_kills := mktx (legacy 1000000000000) 2021000 0 9%nat
+  (EvmOk [OSuicide 3 4; OTransfer 9 3 3000000000000; OSuicide 3 4; OSuicide 3 2]) 80512.
+Definition t_kill_pay := mktx (legacy 1000000000000) 2021000 0 9%nat
+  (EvmOk [OSuicide 3 4; OTransfer 9 3 3000000000000; OSuicide 3 3]) 60000.
+
+Example repeated_selfdestruct_nonvacuous :
+  show (deliver e0 b1 t_kills)    = (Ok, [999999919488; 80519; 0; 0; 53; 0; 100; 0; 0; 997], 5000000000000) /\
+  show (deliver e0 b1 t_kill_pay) = (Ok, [999999940000; 60007; 0; 0; 50; 0; 100; 0; 0; 997], 4999999999997) /\
+  whole_unibi t_kills = true /\ whole_unibi t_kill_pay = false.
+Proof. vm_compute. repeat split; reflexivity. Qed.
+
+(** the duplicated credit of the stale balance (B +53, R +3, nothing debited twice) is refused *)
+Example checker_rejects_stale_selfdestruct_balance :
+  Pb {| m_env := e0; m_tx := t_kills; m_out := Ok; m_before := b1;
+        m_after := bank_of [999999919488; 80519; 3; 0; 53; 0; 100; 0; 0; 997] 5000000000003 |} = false.
 Proof. vm_compute. reflexivity. Qed.
